@@ -305,6 +305,22 @@ func genC02(w *World, r *Rng, tier string) {
 				w.Drop(c)
 			}
 		}
+		// a window is a new header: growing the window must not grow the parent (and the reverse)
+		L0 := w.views[v].Length()
+		for _, se := range [][2]int{{0, L0}, {0, K}, {0, 0}, {minInt(1, L0), L0}} {
+			c := w.Slice(v, se[0], se[1])
+			if c < 0 {
+				continue
+			}
+			w.AppendSample(c, small(k, 41))
+			w.AppendSample(c, small(k, 42))
+			w.AppendSample(v, small(k, 43))
+			if w.views[c].Len() > 0 {
+				w.Set(c, w.views[c].Len()-1, small(k, 44))
+			}
+			w.Get(v, w.views[v].Len()-1)
+			w.Drop(c)
+		}
 		// arguments whose product with the channel count overflows int
 		for _, se := range [][2]int{
 			{1<<62 + 1, 1<<62 + 2}, {1 << 62, 1<<62 + 1}, {-(1 << 62), 1}, {0, 1<<63 - 1}, {1<<63 - 1, 1<<63 - 1},
